@@ -10,7 +10,7 @@ ID = "C15"
 LEAN_MODULES = ["Econf.Props.C15", "Econf.Props.Tie"]
 THEOREMS = ["Econf.C15_options", "Econf.C15_unknown", "Econf.C15_unknown_string", "Econf.applyOption_item", "Econf.C15_join_step", "Econf.C15_join_entry", "Econf.C15_join_value", "Econf.C15_join_since_empty", "Econf.C15_join_concat", "Econf.C15_join_spec", "Econf.C15_no_join", "Econf.C15_python_continues", "Econf.C15_python_append", "Econf.Struct.tie_option_names"]
 RULE = ("join documents (repeated keys, empty definitions, multi-line definitions), python-style documents (indented continuation lines "
-        "containing delimiters and comment characters) and option strings built from the documented items in every order, repeated, "
+        "containing delimiters and comment characters), a quarter of both kinds ending without a line break, and option strings built from the documented items in every order, repeated, "
         "and with unknown or misspelt names; distinct by (content or option string, sets)")
 PATH = b"/etc/app/doc.conf"
 SHRINK = False
@@ -59,7 +59,8 @@ def join_make(rng, sid, hist):
                 it = dict(it, lines=[it["key"] + delim[:1] + g.blanks(0, 2)], value=None, cont=[], tc=None, quotes=False)
                 it["value"] = None if it["lines"][0].endswith(delim[:1]) else b""
             items.append(it)
-    content = gen_doc.render(items)
+    # a quarter of the files end without a line break (the last line may then be a continuation line)
+    content = gen_doc.render(items, final_newline=rng.random() >= 0.25)
     # the flag alone, or next to other documented items in either order (the object then carries its own drop-in postfixes)
     opt = rng.choice([b"JOIN_SAME_ENTRIES=1", b"JOIN_SAME_ENTRIES=1", b"CONFIG_DIRS=.d;JOIN_SAME_ENTRIES=1", b"JOIN_SAME_ENTRIES=1;CONFIG_DIRS=conf.d:.d",
                       b"JOIN_SAME_ENTRIES=1;PARSING_DIRS=/usr/etc/app:/etc/app"])
@@ -126,7 +127,7 @@ def python_make(rng, sid, hist):
             it["lines"] = [it["lines"][0]] + cont
             it["pycont"] = cont
             items.append(it)
-    content = gen_doc.render(items)
+    content = gen_doc.render(items, final_newline=rng.random() >= 0.25)
     s = docs.doc_scenario(sid, content, delim, comment, {"mode": "python", "items": items, "content": content, "delim": delim, "comment": comment},
                           PATH, opt=rng.choice([b"PYTHON_STYLE=1", b"PYTHON_STYLE=1", b"CONFIG_DIRS=.d;PYTHON_STYLE=1", b"PYTHON_STYLE=1;CONFIG_DIRS=.d"]))
     return s
@@ -267,6 +268,10 @@ def histogram(s, lines):
                     ks.append("join_empty_definition")
                 if it["cont"]:
                     ks.append("join_multiline_definition")
+        if m["content"] and not m["content"].endswith(b"\n"):
+            ks.append("join_no_final_newline")
+            if m["items"][-1]["kind"] == "entry" and m["items"][-1]["cont"]:
+                ks.append("join_last_line_is_continuation_no_newline")
         return ks
     if m.get("mode") == "python":
         ks = ["python_doc"]
@@ -278,5 +283,9 @@ def histogram(s, lines):
                         ks.append("python_continuation_with_delimiter")
                     if any(c in cl for c in (m["comment"] or b"#")):
                         ks.append("python_continuation_with_comment_char")
+        if m["content"] and not m["content"].endswith(b"\n"):
+            ks.append("python_no_final_newline")
+            if m["items"][-1]["kind"] == "entry" and m["items"][-1].get("pycont"):
+                ks.append("python_last_line_is_continuation_no_newline")
         return ks
     return ["corpus"]
